@@ -727,7 +727,8 @@ func wrapDisabled(d, exp Exp, lookup *TypeLookup) (Exp, error) {
 			m := *v
 			m.Value = make(map[string]Exp, len(m.Value))
 			fork := make(map[*CallStm]CollectionIndex, 1)
-			for k, vv := range v.Value {
+			for _, k := range sortedKeys(v.Value) {
+				vv := v.Value[k]
 				v, err := wrapDisabled(vv, exp, lookup)
 				if err != nil {
 					errs = append(errs, err)
@@ -774,7 +775,8 @@ func (node *CallGraphStage) unsplit(lookup *TypeLookup) error {
 		})
 	}
 	node.Outputs.Exp = e
-	for k, binding := range node.Inputs {
+	for _, k := range sortedKeys(node.Inputs) {
+		binding := node.Inputs[k]
 		// Ensure inputs can be scanned for refs, and also that their
 		// types are cached.  Otherwise, at runtime mrp may end up trying to cache
 		// the types concurrently.
